@@ -3,7 +3,7 @@
     instantiation of [history_independent] for each pooled type. *)
 From Coq Require Import String List Bool.
 From Webp Require Import Conc.PoolModel Conc.PoolFieldClass Conc.PoolSkel.
-From WebpGen Require Fields Skel Owner.
+From WebpGen Require Fields Skel Owner Globals.
 Import ListNotations.
 Open Scope string_scope.
 Open Scope list_scope.
@@ -77,7 +77,7 @@ Proof. vm_compute. reflexivity. Qed.
 Lemma acquire_path_VP8Encoder :
   subset acquire_calls_VP8Encoder F.lossy_VP8Encoder_NewEncoder_calls = true /\
   subset acquire_calls_VP8Encoder F.lossy_VP8Encoder_NewEncoderFromYUV_calls = true.
-Proof. vm_compute. split; reflexivity. Qed.
+Proof. vm_compute. repeat apply conj. all: reflexivity. Qed.
 
 (** ** dimension gate *)
 
@@ -85,7 +85,7 @@ Proof. vm_compute. split; reflexivity. Qed.
 Lemma dimension_gate_VP8Encoder_dims :
   F.lossy_VP8Encoder_NewEncoder_gate = ["mbW"; "mbH"] /\
   F.lossy_VP8Encoder_NewEncoderFromYUV_gate = ["mbW"; "mbH"].
-Proof. split; reflexivity. Qed.
+Proof. repeat apply conj. all: reflexivity. Qed.
 
 (** every buffer whose length is a function of (mbW, mbH) is allocated by
     allocateBuffers (which runs only for a fresh object, with exactly these
@@ -114,7 +114,7 @@ Lemma dimension_gate_derr :
   In "useDerr" (strongly_written F.lossy_VP8Encoder_resetForReuse_writes) /\
   In "topDerr" (strongly_written F.lossy_VP8Encoder_resetForReuse_writes) /\
   In "topDerr" (strongly_written F.lossy_VP8Encoder_allocateBuffers_writes).
-Proof. repeat split; apply mem_In; vm_compute; reflexivity. Qed.
+Proof. repeat apply conj. all: apply mem_In; vm_compute; reflexivity. Qed.
 
 (** ConstZero fields: [yuvP] is the only one; the package accesses it only to allocate
     it and to hand it to PickBestI4Mode; no analysed function of the acquire path, the
@@ -137,12 +137,12 @@ Lemma constzero_fields_never_written :
   ++ fields_of_class ConstZero class_parallelState ++ fields_of_class ConstZero class_RowWorker
   ++ fields_of_class ConstZero class_importUVWorker ++ fields_of_class ConstZero class_BoolWriter
   ++ fields_of_class ConstZero class_argbBuf = [].
-Proof. vm_compute. repeat split; reflexivity. Qed.
+Proof. vm_compute. repeat apply conj. all: reflexivity. Qed.
 
 Lemma dimension_gate_tokens :
   In "tokens.Reset" F.lossy_VP8Encoder_NewEncoder_calls /\ In "tokens.Reset" F.lossy_VP8Encoder_NewEncoderFromYUV_calls /\
   In "pages" assigned_TokenBuffer /\ In "curPage" assigned_TokenBuffer.
-Proof. repeat split; apply mem_In; vm_compute; reflexivity. Qed.
+Proof. repeat apply conj. all: apply mem_In; vm_compute; reflexivity. Qed.
 
 (* ------------------------------------------------------------------ *)
 (** * lossy.parallelState / RowWorker / importUVWorker *)
@@ -158,7 +158,7 @@ Lemma dimension_gate_parallelState :
   F.lossy_parallelState_getParallelState_gate = ["workers"; "rs"; "topY"; "topNz"] /\
   subset ["topY"; "topU"; "topV"; "topModes"; "topNz"; "topNzDC"; "nextRow"]
          F.lossy_parallelState_encodeFrameParallel_touches = true.
-Proof. split; reflexivity. Qed.
+Proof. repeat apply conj. all: reflexivity. Qed.
 
 (** the gate only guarantees "large enough": every buffer of the pooled parallel state
     whose length the call can observe is re-sliced to this call's dimensions
@@ -251,7 +251,7 @@ Lemma nothing_unreset :
   unreset_state F.lossy_TokenBuffer_fields class_TokenBuffer assigned_TokenBuffer = [] /\
   unreset_state F.lossless_Encoder_fields class_lossless_Encoder assigned_lossless_Encoder = [] /\
   unreset_state F.lossless_Decoder_fields class_lossless_Decoder assigned_lossless_Decoder = [].
-Proof. vm_compute. repeat split; reflexivity. Qed.
+Proof. vm_compute. repeat apply conj. all: reflexivity. Qed.
 
 Lemma released_lossy_Decoder_external :
   subset (fields_of_class External class_lossy_Decoder) released_lossy_Decoder = true.
@@ -284,7 +284,7 @@ Lemma dimension_gate_resized :
   F.bitio_BoolWriter_Reset_resizes = [("buf", "0")] /\
   F.root_argbBuf_encodeLossless_resizes = [("data", "pixelCount")] /\
   F.root_argbBuf_encodeLosslessToWriter_resizes = [("data", "pixelCount")].
-Proof. repeat split; reflexivity. Qed.
+Proof. repeat apply conj. all: reflexivity. Qed.
 
 (* ------------------------------------------------------------------ *)
 (** * write-before-read: Scratch fields decided by the skeleton analysis *)
@@ -302,6 +302,42 @@ Definition skel_of (prefix f : string) : skel_entry :=
 Definition wbr_computed (prefix : string) (cls : list (string * fclass)) : list string :=
   filter (fun f => decided (skel_of prefix f)) (fields_of_class Scratch cls).
 
+(** ** one instance per function
+    The skeletons speak about "the field f of type T" without naming the object.  That
+    is justified by the regenerated list of every expression of type T whose fields a
+    function accesses, on which it calls a method, or which it passes on: every function
+    of the package uses ONE such expression (a receiver, a parameter, the local bound at
+    the acquisition site, or a fixed field path from one of those, e.g. enc.tokens) - so
+    along any call chain from an entry point all accesses concern the object acquired at
+    the top.  Variables declared in an if-block that ends in a return (the pool-hit path
+    of NewEncoder) are separate scopes and may differ.  No expression is an element of a
+    slice of T or otherwise unclassified ("other:"). *)
+Definition base_live (b : string) : bool := negb (String.prefix "ret:" b).
+
+Definition inst_ok (l : list (string * string)) (exceptions : list string) : bool :=
+  forallb (fun p =>
+             negb (String.prefix "other:" (snd p))
+             && (negb (base_live (snd p)) || mem (fst p) exceptions
+                 || forallb (fun q => negb (String.eqb (fst q) (fst p)) || negb (base_live (snd q))
+                                      || String.eqb (snd q) (snd p)) l)) l.
+
+Lemma single_instance_per_function :
+  inst_ok WebpGen.Skel.inst_lossy_VP8Encoder two_base_functions = true /\
+  inst_ok WebpGen.Skel.inst_lossy_TokenBuffer [] = true /\
+  inst_ok WebpGen.Skel.inst_lossy_Decoder [] = true /\
+  inst_ok WebpGen.Skel.inst_lossy_parallelState [] = true /\
+  inst_ok WebpGen.Skel.inst_lossless_Encoder [] = true /\
+  inst_ok WebpGen.Skel.inst_lossless_Decoder [] = true /\
+  (* the exception is real and is exactly the modelled pair *)
+  filter (fun p => String.eqb (fst p) "MBIterator.FillPredContext") WebpGen.Skel.inst_lossy_VP8Encoder
+    = [("MBIterator.FillPredContext", "enc"); ("MBIterator.FillPredContext", "it.enc")].
+Proof. vm_compute. repeat apply conj. all: reflexivity. Qed.
+
+Example inst_check_rejects_two_objects :
+  inst_ok [("f", "a"); ("f", "b")] [] = false /\ inst_ok [("f", "other:ws[i]")] [] = false /\
+  inst_ok [("f", "ret:a"); ("f", "b")] [] = true.
+Proof. vm_compute. repeat apply conj. all: reflexivity. Qed.
+
 Lemma wbr_decided_fields :
   wbr_computed "lossy.VP8Encoder." class_VP8Encoder = wbr_VP8Encoder /\
   wbr_computed "lossy.Decoder." class_lossy_Decoder = wbr_lossy_Decoder /\
@@ -309,15 +345,15 @@ Lemma wbr_decided_fields :
   wbr_computed "lossy.TokenBuffer." class_TokenBuffer = wbr_TokenBuffer /\
   wbr_computed "lossless.Encoder." class_lossless_Encoder = wbr_lossless_Encoder /\
   wbr_computed "lossless.Decoder." class_lossless_Decoder = wbr_lossless_Decoder.
-Proof. vm_compute. repeat split; reflexivity. Qed.
+Proof. vm_compute. repeat apply conj. all: reflexivity. Qed.
 
 (** for every decided field: every trace of accesses that the regenerated skeleton of
     any entry point admits (all branches, loop counts, call depths, early returns)
     begins with a complete overwrite — or contains no access at all *)
 Lemma wbr_field_safe prefix cls f :
   In f (wbr_computed prefix cls) ->
-  forall r t, In r (se_roots (skel_of prefix f)) ->
-              den (env_of (se_env (skel_of prefix f))) (Call r) t -> safe t.
+  forall r rho t, In r (se_roots (skel_of prefix f)) ->
+                  den (env_of (se_env (skel_of prefix f))) rho (Call r) t -> safe t.
 Proof.
   unfold wbr_computed. intros Hin. apply filter_In in Hin as [_ Hd].
   exact (decided_sound _ Hd).
@@ -352,7 +388,7 @@ Definition api_return_roots : list string :=
 Lemma returned_values_fresh :
   returned_values_fresh_b WebpGen.Owner.owner_sites = true /\
   forallb (fun r => existsb (fun q => String.eqb (fst q) r) WebpGen.Owner.owner_sites) api_return_roots = true.
-Proof. vm_compute. split; reflexivity. Qed.
+Proof. vm_compute. repeat apply conj. all: reflexivity. Qed.
 
 (** the check is not vacuous: it rejects a function that returns pooled storage, hands
     back a parameter, or calls a function that is not listed *)
@@ -361,7 +397,39 @@ Example returned_values_fresh_rejects :
   returned_values_fresh_b [("f#0", "param:buf")] = false /\
   returned_values_fresh_b [("f#0", "call:g#0")] = false /\
   returned_values_fresh_b [("f#0", "call:g#0"); ("g#0", "fresh:make")] = true.
-Proof. vm_compute. repeat split; reflexivity. Qed.
+Proof. vm_compute. repeat apply conj. all: reflexivity. Qed.
+
+(* ------------------------------------------------------------------ *)
+(** * global tables are written only while the package initialises
+
+    Gen/Globals.v lists every write to a package-level variable after its declaration
+    (whole variable, element / field, builtin copy / clear, through a pointer taken to
+    it, through a module function that stores into the corresponding parameter) with
+    the context of the enclosing function.  Every write happens in an init function,
+    inside the literal given to (sync.Once).Do, or in a function reachable only from
+    those; the set of variables written at all is the modelled one; the mutable
+    synchronisation objects are exactly the modelled pools and Once guards.  So no call
+    can observe a global table in two different states: lazily mutated tables would be
+    history dependence outside the pool model. *)
+Fixpoint dedup (l : list string) : list string :=
+  match l with
+  | [] => []
+  | x :: r => if mem x r then dedup r else x :: dedup r
+  end.
+
+Definition global_write_ok (w : string * (string * (string * string))) : bool :=
+  let ctx := snd (snd (snd w)) in String.eqb ctx "init" || String.eqb ctx "once".
+
+Lemma globals_written_only_at_init :
+  forallb global_write_ok WebpGen.Globals.global_writes = true /\
+  subset (map fst WebpGen.Globals.global_writes) written_globals = true /\
+  subset written_globals (map fst WebpGen.Globals.global_writes) = true /\
+  WebpGen.Globals.sync_globals = modelled_sync_globals.
+Proof. vm_compute. repeat apply conj. all: reflexivity. Qed.
+
+Example global_write_check_rejects_runtime :
+  global_write_ok ("lossy.VP8FixedCostsI4", ("VP8Encoder.encodeFrame", ("elem", "runtime"))) = false.
+Proof. reflexivity. Qed.
 
 (* ------------------------------------------------------------------ *)
 (** * every sync.Pool is modelled *)
